@@ -235,19 +235,20 @@ contract(
 )
 
 _fea_summaries = dict(_solve_summaries)
-_fea_summaries["assign h #0"] = Summary(
-    {"h": A1("HT")},
-    ["UB >= 0 and len(h) == UB + 1 and forall(k, 0, UB + 1, h[k] == 0)", "HT_lo == -2**63 and HT_hi == 2**63 - 1",
-     "tour_bounded(instance, shape(instance, 0), UB) and UB <= shape(instance, 0) * M"],
-    "np.zeros(instance.tour_length_upper_bound + 1, DEFAULT_INT); UB = instance.tour_length_upper_bound bounds every tour (C05)")
 _fea_summaries["if #2"] = Summary({}, [], "do_log_h: logging of the frequency table after the run (numpy-checked indexing)")
+
+_fea_summaries["assign instance #0"] = Summary(
+    {"instance": A2("D")}, _inst_facts + ["UB >= 0 and tour_bounded(instance, shape(instance, 0), UB) and UB <= shape(instance, 0) * M"],
+    "self.instance is a symmetric tsp.Instance; UB = instance.tour_length_upper_bound bounds every tour (C05: "
+    "tour_within_instance_bounds)")
 
 contract(
     FEA + ":TSPFEA1p1revn.solve",
-    props="C06",
+    props="C06 C13",
     params={"process": OBJ},
     ghosts={"M": PYINT, "UB": PYINT},
     i64=False,
+    attrs={"instance.tour_length_upper_bound": "UB"},      # the frequency table is allocated natively: np.zeros(UB + 1, DEFAULT_INT)
     summaries=_fea_summaries,
     opaque={"register": _register, "should_terminate": _should_terminate, "ri": _ri},
     calls={"register": {"d": "instance", "n": "n"}, "rev_if_h_not_worse": {"M": "M", "UB": "UB"}},
@@ -255,7 +256,7 @@ contract(
         ghost_pre=["it = 0"], ghost_end=["it = it + 1"],
         assume=["it < 2**60"],
         inv=[
-            tag("C06", "len", "len(x) == n and len(h) == UB + 1"),
+            tag("C06 C13", "len", "len(x) == n and len(h) == UB + 1 and dtype_lo(h) == -2**63 and dtype_hi(h) == 2**63 - 1"),
             tag("C06", "perm", "perm(x, n)"),
             tag("C06", "length-exact", "y == tour(instance, x, n)"),
             tag("C06", "counters", "0 <= it and forall(k, 0, UB + 1, 0 <= h[k] and h[k] <= 2 * it)"),
